@@ -890,6 +890,28 @@ func ruleUnregisterAndCallbacks(c *Ctx, r6, r7 string) {
 		// each guarded only by its own != nil
 		ok7 = ok7 && origin(open[0].Call.Args[0]) == origin(closeD[0].Call.Args[0])
 	}
+	if ok7 {
+		// the open callback is guarded only by its own != nil: whatever else would skip it must skip the close callback too
+		for _, f := range boolFactsAt(open[0]) {
+			isOwn := false
+			if b, isB := f.V.(*ssa.BinOp); isB && isNilConst(b.Y) {
+				if fr, _, isF := loadedField(b.X); isF && fr.Field == ro.TSHOnConnect {
+					isOwn = true
+				}
+			}
+			if !isOwn {
+				guardsClose := false
+				for _, g := range boolFactsAt(closeD[0]) {
+					if g.V == f.V && g.True == f.True {
+						guardsClose = true
+					}
+				}
+				if !guardsClose {
+					ok7 = false
+				}
+			}
+		}
+	}
 	c.check(ok7, r7, w.Short(ort)+": one open callback after registration, close callback deferred", posOf(w, ort), "open(ch) once after both adds; defer close(ch)", "the open/close callbacks are not 'exactly one open call after registration, and a deferred close call for the same channel', or one of them sits in a loop")
 	// the wait comes after the callbacks
 	var wait ssa.Instruction
@@ -942,4 +964,42 @@ func isRegEntry(w *World, t types.Type) bool {
 		}
 	}
 	return false
+}
+
+// ruleKeyAsChannel (C12.8): the pooled channel for a key resolves the key's registry at every call.
+func ruleKeyAsChannel(c *Ctx, rule string) {
+	c.rule(rule, "KeyAsChannel(k) resolves the registry for k at every call: each of its pick / ready / wait functions reaches a lookup of the by-key map (a handle bound once to a registry object goes stale when registries are replaced), and AsChannel binds the handler's single global registry")
+	w := c.W
+	ro := w.Roles()
+	fn := w.Func("(*TunnelServiceHandler).KeyAsChannel")
+	if fn == nil {
+		c.fail(rule, "KeyAsChannel", "-", "not found")
+		return
+	}
+	n := 0
+	allInstrs(fn, func(in ssa.Instruction) {
+		mc, ok := in.(*ssa.MakeClosure)
+		if !ok {
+			return
+		}
+		cf, ok := mc.Fn.(*ssa.Function)
+		if !ok {
+			return
+		}
+		n++
+		reach := w.sameGoroutineReach(cf, nil)
+		looks := false
+		for g := range reach {
+			allInstrs(g, func(x ssa.Instruction) {
+				if l, isL := x.(*ssa.Lookup); isL {
+					if fr, _, isF := loadedField(l.X); isF && fr.Field == ro.TSHByKey {
+						looks = true
+					}
+				}
+			})
+		}
+		c.check(looks, rule, "KeyAsChannel: "+cf.Name()+" resolves the registry by key at call time", w.At(mc), "reaches a lookup of "+ro.TSHByKey, "this function of the pooled channel does not look the key up in the by-key map when it is called (it is bound to one registry object): after all tunnels of the key closed and a new one opened, a long-lived handle routes to / waits on an orphaned registry")
+	})
+	c.floor(rule, n, 3, "functions of the per-key pooled channel (pick, ready, wait)")
+	// registries are never removed from the by-key map while handles may exist, or lookups are per call (above)
 }
